@@ -201,11 +201,18 @@ NUMS_SELF = ["-20", "-1.5", "+3", "-.5"]          # self-delimiting after any nu
 NUMS_EXOTIC = [".5", "1e1", "2E-1", "5.", "-.5e+1", "1e-2"]
 
 
-def path_string(toks, rnd, svg_only=True):
+LEXCLASS = {"digit": ["10", "0", "3", "1.5", "100", "1e1", "5.", "2E-1"], "sign": ["-20", "-1.5", "+3", "-.5", "+.25", "-.5e+1"],
+            "dot": [".5", ".25", ".5e1"]}
+
+
+def path_string(toks, rnd, svg_only=True, lexclass=None):
     """Concretise a token-class sequence; when no separator token stands between two
-    numbers the second one is spelled so that the grammar still splits them."""
+    numbers the second one is spelled so that the grammar still splits them.
+    lexclass: force the first character class of every number that is free to choose
+    it ("digit" / "sign" / "dot")."""
     out = []
     prev_num = None
+    forced = LEXCLASS.get(lexclass)
     for i, t in enumerate(toks):
         if t in ("n", "f"):
             if t == "f":
@@ -221,7 +228,11 @@ def path_string(toks, rnd, svg_only=True):
                 else:
                     s = rnd.choice(NUMS_SELF)
             else:
-                s = rnd.choice(NUMS_ANY + NUMS_SELF + NUMS_EXOTIC)
+                s = rnd.choice(forced or (NUMS_ANY + NUMS_SELF + NUMS_EXOTIC))
+            if forced and t == "n" and prev_num is not None:
+                # keep the forced class where the grammar still splits the two numbers
+                if lexclass == "sign" or (lexclass == "dot" and prev_num[1] != "f" and ("." in prev_num[0] or "e" in prev_num[0].lower())):
+                    s = rnd.choice(forced)
             out.append(s)
             prev_num = (s, t)
         elif t == "s":
